@@ -391,8 +391,19 @@ def forms_avr():
             yield it('sbi %d,%d' % (a, b), w(0x9A00 | a << 3 | b), S + 'SBI')
             yield it('cbi %d,%d' % (a, b), w(0x9800 | a << 3 | b), S + 'CBI')
             yield it('sbic %d,%d' % (a, b), w(0x9900 | a << 3 | b), S + 'SBIC')
+            yield it('sbis %d,%d' % (a, b), w(0x9B00 | a << 3 | b), S + 'SBIS')
     yield it('sbi 32,0', 'ERR', S + 'SBI/range')
     yield it('sbi 0,8', 'ERR', S + 'SBI/bit-range')
+    # the same operands given as symbols typed by PORT (the register include files define the I/O registers this way):
+    # the four bit instructions reach only I/O addresses 0..31, IN/OUT reach 0..63
+    for mn, op in (('sbi', 0x9A00), ('cbi', 0x9800), ('sbic', 0x9900), ('sbis', 0x9B00)):
+        for a in (0, 31):
+            yield it('%s p%d,7' % (mn, a), w(op | a << 3 | 7), S + mn.upper() + '/port-symbol')
+        for a in (32, 57, 63):
+            yield it('%s p%d,1' % (mn, a), 'ERR', S + mn.upper() + '/port-symbol-range')
+    for a in (0, 31, 32, 63):
+        yield it('in r1,p%d' % a, w(0xB000 | (a & 0x30) << 5 | 1 << 4 | (a & 15)), S + 'IN/port-symbol')
+        yield it('out p%d,r1' % a, w(0xB800 | (a & 0x30) << 5 | 1 << 4 | (a & 15)), S + 'OUT/port-symbol')
     for d in (0, 31):
         for b in (0, 7):
             yield it('bst r%d,%d' % (d, b), w(0xFA00 | d << 4 | b), S + 'BST')
@@ -412,6 +423,25 @@ def forms_avr():
             yield it('sts %d,r%d' % (k, d), w(0x9200 | d << 4) + w(k), S + 'STS')
 
 
+# ------------------------------------------------------------------------------------------------ MSP430 jumps
+
+def forms_msp430_jumps():
+    """the eight conditional/unconditional jumps: opcode | 10-bit signed word offset, target = address of the jump + 2 + 2*offset,
+    i.e. targets from PC+2-1024 to PC+2+1022 in steps of 2 (SLAU049, 'Jump instructions')"""
+    S = 'msp430/'
+
+    def w(v):
+        return [v & 0xff, v >> 8]
+    ops = {'jne': 0x2000, 'jnz': 0x2000, 'jeq': 0x2400, 'jz': 0x2400, 'jnc': 0x2800, 'jlo': 0x2800, 'jc': 0x2C00, 'jhs': 0x2C00, 'jn': 0x3000, 'jge': 0x3400,
+           'jl': 0x3800, 'jmp': 0x3C00}
+    for mn, op in ops.items():
+        for d in (-1024, -1022, -4, -2, 0, 2, 4, 1020, 1022):
+            yield it('org 16384\n\t%s $+2+(%d)' % (mn, d), w(op | ((d // 2) & 0x3ff)), S + mn.upper(), at=16384)
+            yield it('org 16384\n\t%s lbl\n\torg 16384+2+(%d)\nlbl:' % (mn, d), w(op | ((d // 2) & 0x3ff)), S + mn.upper() + '/label', at=16384)
+        for d in (-1028, -1026, 1024, 1026, -1, 1, 1023, -1023):
+            yield it('org 16384\n\t%s $+2+(%d)' % (mn, d), 'ERR', S + mn.upper() + '/range', at=16384)
+
+
 ISAS = {
     '6502': dict(cpu='6502', gen=forms_6502, slot=8),
     '8080': dict(cpu='8080', gen=forms_8080, slot=8),
@@ -419,5 +449,6 @@ ISAS = {
     '4004': dict(cpu='4004', gen=forms_4004, slot=4),
     'pic16c84': dict(cpu='16c84', gen=forms_pic, slot=2),
     'z80': dict(cpu='z80', gen=forms_z80, slot=8),
-    'avr': dict(cpu='at90s8515', gen=forms_avr, slot=4),
+    'avr': dict(cpu='at90s8515', gen=forms_avr, slot=4, pre=['p%d\tport %d' % (a, a) for a in (0, 31, 32, 57, 63)]),
+    'msp430-jumps': dict(cpu='msp430', gen=forms_msp430_jumps, slot=4),
 }
